@@ -25,7 +25,7 @@ fn val(rng: &mut Rng, cx: &mut Ctx, ks: usize) -> u64 {
 }
 
 fn tx(rng: &mut Rng, cx: &mut Ctx, fresh_heavy: bool) -> T {
-    let mut v = |rng: &mut Rng, cx: &mut Ctx, ks: usize| -> u64 {
+    let v = |rng: &mut Rng, cx: &mut Ctx, ks: usize| -> u64 {
         if fresh_heavy && rng.chance(2, 3) {
             cx.fresh += 1;
             cx.fresh
@@ -140,7 +140,7 @@ fn tx_out(script: u64, outs: &[(u64, u64)]) -> T {
 }
 
 fn directed() -> Vec<T> {
-    let case = |r: u64, ops: Vec<T>| T::l(vec![T::n(r), T::n(0), T::l(ops)]);
+    let case = |r: u64, ops: Vec<T>| T::l(vec![T::n(r), T::n(0u64), T::l(ops)]);
     let mut v = vec![];
     // wrap-around inside one block: keys KS-1, 0, 1, 2
     v.push(case(
